@@ -120,6 +120,8 @@ def gen_case(seed, tier):
         # the primitive needs a rising-edge output domain and must refuse a falling-edge one wherever it is defined, e.g.
         # in a submodule, shadowing a rising-edge domain of the same name above it
         config["shadow_neg"] = cfg.random() < 0.08
+        # the output domain may have any name, including the one the primitive uses internally for its private domain
+        config["o_name"] = cfg.choice(["o", "o", "async_ff", "reset_sync"])
         # ... or when another, legal, instance of the primitive was added to the design before / after the offending one
         config["shadow_sibling"] = cfg.choice([None, "before", "after"])
         levels = {"o": 0, "x": 0, "a": 0}
@@ -323,14 +325,14 @@ def run_case(case):
     elif kind == "async":
         i = Signal(name="i")
         o = Signal(name="o")
-        dut = cdc.AsyncFFSynchronizer(i, o, o_domain="o", stages=stages, async_edge=config["async_edge"])
-        domains = [DomainSpec("o"), DomainSpec("x")]
+        dut = cdc.AsyncFFSynchronizer(i, o, o_domain=config.get("o_name", "o"), stages=stages, async_edge=config["async_edge"])
+        domains = [DomainSpec(config.get("o_name", "o")), DomainSpec("x")]
         extra_lines = {"a": i}
         P.update(async_short_pulse=0, reassert_during_release=0, released=0, assert_coincident_with_edge=0)
     elif kind == "reset":
         i = Signal(name="arst")
-        dut = cdc.ResetSynchronizer(i, domain="o", stages=stages)
-        domains = [DomainSpec("o", drive_rst=False), DomainSpec("x")]
+        dut = cdc.ResetSynchronizer(i, domain=config.get("o_name", "o"), stages=stages)
+        domains = [DomainSpec(config.get("o_name", "o"), drive_rst=False), DomainSpec("x")]
         extra_lines = {"a": i}
         o = None
         P.update(async_short_pulse=0, reassert_during_release=0, released=0, assert_coincident_with_edge=0)
@@ -349,7 +351,7 @@ def run_case(case):
         class Shadow(Elaboratable):
             def elaborate(self, platform):
                 m = Module()
-                m.domains.o = ClockDomain("o", clk_edge="neg")
+                m.domains += ClockDomain(config.get("o_name", "o"), clk_edge="neg")
                 m.submodules.inner = inner
                 return m
 
@@ -358,7 +360,7 @@ def run_case(case):
         class Outer(Elaboratable):
             def elaborate(self, platform):
                 m = Module()
-                m.domains.o = ClockDomain("o")
+                m.domains += ClockDomain(config.get("o_name", "o"))
                 m.domains.ok = ClockDomain("ok")
                 if sib_where:
                     # a legal instance on a rising-edge domain, added before or after the offending one
@@ -385,13 +387,15 @@ def run_case(case):
     run = ManualRun(dut, domains, sched_mode=case["sched"]["mode"], sched_seed=case["sched"]["seed"],
                     extra_lines=extra_lines)
     if kind == "reset":
-        o = run.top.cds["o"].rst
+        o = run.top.cds[config.get("o_name", "o")].rst
     act = {d["name"]: (1 if d["edge"] == "pos" else 0) for d in domains}
+    act.setdefault("o", 1)        # (steps always call the output clock "o", whatever the domain is named)
 
     def body(drv):
         lv = {}
         for d in domains:
             lv[d["name"]] = 0
+        lv.setdefault("o", 0)
         if extra_lines:
             lv["a"] = 0
         if kind == "ff":
@@ -402,7 +406,7 @@ def run_case(case):
         # models
         sr = [config.get("init", 0)] * stages
         mask = (1 << config.get("width", 1)) - 1
-        o_sig = drv.top.cds["o"].rst if kind == "reset" else o
+        o_sig = drv.top.cds[config.get("o_name", "o")].rst if kind == "reset" else o
         omask = (1 << len(o_sig)) - 1
 
         def get_o():
@@ -471,7 +475,7 @@ def run_case(case):
                         changes["o.rst"] = lvl
                         stats["faults"]["reset"] = stats["faults"].get("reset", 0) + 1
                     else:
-                        changes[nme + ".clk"] = lvl
+                        changes[(config.get("o_name", "o") if (nme == "o" and kind in ("async", "reset")) else nme) + ".clk"] = lvl
                         clk_changes += 1
                         stats["edges"] += 1
                         edge[nme] = (lvl == act[nme])
